@@ -1,0 +1,66 @@
+//! Verification hooks (cargo feature `verif-hooks`, off by default).
+//!
+//! Nothing in here changes behaviour unless a capacity override is explicitly
+//! set on the current thread. The hooks exist so that an external test harness
+//! can (a) start unique tables and the lossy ITE cache at tiny capacities, so
+//! that growth, probe displacement and overwrites happen on small workloads,
+//! (b) drive the unique table directly, and (c) observe that those events
+//! actually occurred.
+use std::cell::Cell;
+
+pub use crate::backing_store::{BackedRobinhoodTable, UniqueTable};
+
+thread_local! {
+    static UNIQUE_TABLE_CAPACITY: Cell<Option<usize>> = const { Cell::new(None) };
+    static LRU_ITE_CAPACITY: Cell<Option<usize>> = const { Cell::new(None) };
+    static TABLE_GROWS: Cell<u64> = const { Cell::new(0) };
+    static LRU_OVERWRITES: Cell<u64> = const { Cell::new(0) };
+    static LRU_GROWS: Cell<u64> = const { Cell::new(0) };
+}
+
+/// Override the initial number of slots of every unique table created on this
+/// thread from now on (`None` restores the default).
+pub fn set_unique_table_capacity(cap: Option<usize>) {
+    UNIQUE_TABLE_CAPACITY.with(|c| c.set(cap.map(|v| v.max(1))));
+}
+
+pub fn unique_table_capacity() -> Option<usize> {
+    UNIQUE_TABLE_CAPACITY.with(|c| c.get())
+}
+
+/// Override the initial capacity (given as a power of two) of every lossy ITE
+/// cache created on this thread from now on (`None` restores the default).
+pub fn set_lru_ite_capacity(cap_pow2: Option<usize>) {
+    LRU_ITE_CAPACITY.with(|c| c.set(cap_pow2));
+}
+
+pub fn lru_ite_capacity() -> Option<usize> {
+    LRU_ITE_CAPACITY.with(|c| c.get())
+}
+
+pub fn note_table_grow() {
+    TABLE_GROWS.with(|c| c.set(c.get() + 1));
+}
+
+pub fn note_lru_overwrite() {
+    LRU_OVERWRITES.with(|c| c.set(c.get() + 1));
+}
+
+pub fn note_lru_grow() {
+    LRU_GROWS.with(|c| c.set(c.get() + 1));
+}
+
+/// number of unique-table growths on this thread so far
+pub fn table_grows() -> u64 {
+    TABLE_GROWS.with(|c| c.get())
+}
+
+/// number of lossy-cache insertions that replaced an occupied slot on this thread so far
+pub fn lru_overwrites() -> u64 {
+    LRU_OVERWRITES.with(|c| c.get())
+}
+
+/// number of lossy-cache growths on this thread so far
+pub fn lru_grows() -> u64 {
+    LRU_GROWS.with(|c| c.get())
+}
